@@ -78,6 +78,9 @@ package main
 //@   atcall Proxy before: assert @C04: defined(matched) && arg0 == reg && arg1 == wrapped && reg != nil && wrapped != nil
 //@   ensures @C03: !defined(matched) && !defined(gaveUp) ==> nwrites(clientConn) == old(nwrites(clientConn)) && closed(clientConn) == old(closed(clientConn))
 //@   ensures @C03: defined(deadlineAsked) && !defined(matched) && !defined(gaveUp) ==> rdEnded(clientConn)
+// C03 "stays open until the deadline": no index, slice or conversion of the handler can panic on the bytes received
+// (a panic in a handler goroutine takes the station, and with it every connection being classified, down)
+//@   checks bounds
 //@ loop 1:
 //@   invariant nread(clientConn) == old(nread(clientConn)) || (defined(offeredAt) && offeredAt == nread(clientConn))
 //@   invariant cm != nil && cm.connStats != nil && regManager != nil && clientConn != nil && regManager.registeredDecoys != nil
